@@ -190,7 +190,7 @@ PROPS = {
     "C01": dict(
         design_ref="DESIGN.md 4 (C01), 4.1",
         level_text="Coq theorems, for every program of the subset grammar (Grammar.v) lexed from a source text and EVERY output configuration (compact; pretty with any blank indent unit, with or without semicolons; with or without source map): lexing spells every keyword/operator/punctuation token canonically; the parser returns exactly the ECMAScript tree of the token sequence without error (C02); compiling it never panics; the code, with layout bytes (blank, tab, line breaks, ';') removed, is byte for byte the source's token texts in source order - no token is dropped, added, reordered or respelled except the quotes of string literals, whose value is preserved (C07) (C01_source_to_code); and ROUND TRIP (C01_compact_round_trip): the compact output lexes and parses back, without error, to the tree it was printed from - the emitted JavaScript text is a spelling of the same tree. Executing source and output is not expressible in the model (no JavaScript semantics can be installed); it is explored by the oracle with node 20 on generated terminating programs in every configuration.",
-        level_note="Partial by construction: the theorems stop at the token sequence and the re-parsed tree of the output; that equal token sequences with JavaScript's own semicolon insertion behave equally is the semantics of JavaScript, not modelled. Pretty configurations are covered for comment-free trees (comments are C15). Trusted: Coq kernel, translator xjs2v (tables, predicates, WriteTo bodies), extraction, harness/driver correspondence (lex, parse, print, writer suites), Grammar.v and TokenSpec.v as specification. Recorded findings KF1, KF2 (semicolons off), KF3 (pretty trims inside backtick literals), KF16 are reported by the oracle.",
+        level_note="Partial by construction: the theorems stop at the token sequence and the re-parsed tree of the output; that equal token sequences with JavaScript's own semicolon insertion behave equally is the semantics of JavaScript, not modelled. Pretty configurations are covered for comment-free trees (comments are C15). Trusted: Coq kernel, translator xjs2v (tables, predicates, WriteTo bodies), extraction, harness/driver correspondence (lex, parse, print, writer suites), Grammar.v and TokenSpec.v as specification. Recorded findings KF1, KF2 (semicolons off), KF3 (pretty trims inside backtick literals), KF16, KF19 (escaped 'use strict' becomes a directive) and KF20 (lone CR / U+2028 / U+2029 inside a comment) are reported by the oracle.",
         technique="Coq proof (induction over the grammar's matchers against the generated printer; writer invariant over operation lists) + model/implementation correspondence",
         suites=[dict(suite="lex", n_quick=3000, n_thorough=100000, what="byte strings: all token fields", projection=POS_FREE),
                 dict(suite="parse", n_quick=2000, n_thorough=50000, what="sources x modes: tree, errors", projection=POS_FREE),
